@@ -39,6 +39,21 @@ def verdict(case, lax, strict, via=None):
     db = impl.run_compute(b)
     shape = tuple(case['shape'])
     ha, hb = impl.impl_hierarchy(da, shape), impl.impl_hierarchy(db, shape)
+    # the label maps say the same as the structures: the same pixels are assigned in both, and every label names the
+    # structure that owns the pixel
+    la, lb = da.index_map.ravel().tolist(), db.index_map.ravel().tolist()
+    if [x >= 0 for x in la] != [x >= 0 for x in lb]:
+        ha = ha + [('assigned pixels (label map)', tuple(i for i, x in enumerate(la) if x >= 0))]
+        hb = hb + [('assigned pixels (label map)', tuple(i for i, x in enumerate(lb) if x >= 0))]
+    else:
+        for dd, lab, hh in ((da, la, ha), (db, lb, hb)):
+            own = {}
+            for s_ in dd._structures_dict.values():
+                for p_ in oracles.flat_indices(shape, s_.indices(subtree=False)):
+                    own[p_] = int(s_.idx)
+            wrong = [i for i, x in enumerate(lab) if (x >= 0 and own.get(i) != x) or (x < 0 and i in own)]
+            if wrong:
+                hh.append(('label map disagrees with the structures at pixels', tuple(wrong)))
     return ha == hb, ha, hb, nlax, len(db)
 
 
